@@ -167,7 +167,7 @@ def _rand_asof(rng):
     if rng.random() < 0.45:
         tol = rng.choice((0, 1, 2, 3, 5)) if kd != "float" else rng.choice((0.5, 1.0, 2.5))
     by = rng.choice((None, None, "g", "g", ["g", "h"]))
-    nl, nr = rng.randint(0, 30) if rng.random() < 0.1 else rng.randint(3, 30), rng.randint(1, 30)
+    nl, nr = rng.randint(1, 30) if rng.random() < 0.1 else rng.randint(3, 30), rng.randint(1, 30)
     return {"facet": "asof", "lseed": rng.randrange(2 ** 31), "rseed": rng.randrange(2 ** 31), "nl": nl, "nr": nr,
             "kd": kd, "form": form, "by": by, "direction": rng.choice(("backward", "forward", "nearest")),
             "tolerance": tol, "allow_exact": rng.random() < 0.7, "dups": rng.random() < 0.5,
@@ -212,8 +212,8 @@ def _rand_concat1(rng):
     nrows = _rand_rows(rng)
     same_index = mode == "unknown-aligned" or rng.random() < 0.55
     ik = rng.choice(("sorted", "sorted", "dups", "range", "datetime", "strings", "float"))
-    if not same_index and ik == "dups":
-        ik = "sorted"
+    if not same_index:
+        ik = rng.choice(("sorted", "sorted", "range"))      # pandas aligns only uniquely valued indexes
     frames_, parts = [], []
     cuts = sorted(rng.randint(0, nrows) for _ in range(rng.randint(0, 4)))
     for i in range(n):
@@ -391,6 +391,19 @@ def _short(x):
         return x.head(14).to_string()[:900]
     except Exception:  # noqa: BLE001
         return repr(x)[:300]
+
+
+def _root(ex):
+    """innermost exception of the chain that was raised inside dask (``Expr.__getattr__`` wraps metadata errors)."""
+    from vf.core.ctx import dask_frame
+
+    best, e, seen = ex, ex, 0
+    while e is not None and seen < 6:
+        if dask_frame(e) is not None:
+            best = e
+        e = e.__cause__ or e.__context__
+        seen += 1
+    return best
 
 
 def _plan(coll):
@@ -586,7 +599,7 @@ def _run_merge(case, ctx):
         return
     except Exception as ex:  # noqa: BLE001
         f = _merge_features(case, L, R, lddf, rddf, plan, kw)
-        ctx.exception(ex, prefix="merge:%s" % _merge_pred(case, f)("exception"), features=f, kw=repr(kw), extra=extra)
+        ctx.exception(_root(ex), prefix="merge:%s" % _merge_pred(case, f)("exception"), features=f, kw=repr(kw), extra=extra)
         return
     f = _merge_features(case, L, R, lddf, rddf, plan, kw)
     both_index = bool(kw.get("left_index") and kw.get("right_index")) or form == "oi"
@@ -709,7 +722,7 @@ def _run_asof(case, ctx):
         ctx.unsupported("merge_asof: %s" % ex)
         return
     except Exception as ex:  # noqa: BLE001
-        ctx.exception(ex, prefix="asof:%s" % _asof_pred(case, {})("exception"), kw=repr(kw), case_=case)
+        ctx.exception(_root(ex), prefix="asof:%s" % _asof_pred(case, {})("exception"), kw=repr(kw), case_=case)
         return
     f = {"form": case["form"], "kd": case["kd"], "by": case["by"], "direction": case["direction"], "tolerance": case["tolerance"],
          "allow_exact": case["allow_exact"], "nl": lddf.npartitions, "nr": rddf.npartitions, "plan": plan,
@@ -787,7 +800,15 @@ def _shift_index(idx, last):
 
 
 def _concat_pred(case, f):
+    fds = case["frames"]
+
     def pred(symptom):
+        if case["facet"] == "concat0":
+            cat = [fd["kind"] == "frame" and "k" in fd["cols"] for fd in fds]
+            if any(cat) and any(fd["kind"] == "series" for fd in fds) and not all(fd["kind"] == "series" for fd in fds):
+                return "categorical-column&series-input"
+            if cat[0] and case["join"] == "outer" and any(set(fd["cols"]) - set(fds[0]["cols"]) for fd in fds[1:]):
+                return "first-frame-has-categorical-column&later-input-adds-columns"
         return "other"
     return pred
 
@@ -822,7 +843,7 @@ def _run_concat0(case, ctx):
         ctx.unsupported("concat: %s" % ex)
         return
     except Exception as ex:  # noqa: BLE001
-        ctx.exception(ex, prefix="concat0:%s" % _concat_pred(case, {})("exception"), kw=kw, case_=case)
+        ctx.exception(_root(ex), prefix="concat0:%s" % _concat_pred(case, {})("exception"), kw=kw, case_=case)
         return
     interleaved = "StackPartitionInterleaved" in plan
     f = {"join": case["join"], "interleave": case["interleave"], "interleaved-plan": interleaved, "stacked": case["stacked"],
@@ -899,7 +920,7 @@ def _run_concat1(case, ctx):
         ctx.unsupported("concat: %s" % ex)
         return
     except Exception as ex:  # noqa: BLE001
-        ctx.exception(ex, prefix="concat1:%s" % _concat_pred(case, {})("exception"), kw=kw, case_=case)
+        ctx.exception(_root(ex), prefix="concat1:%s" % _concat_pred(case, {})("exception"), kw=kw, case_=case)
         return
     same = all(o.index.equals(objs[0].index) for o in objs)
     f = {"join": case["join"], "mode": case["mode"], "kinds": [fd["kind"] for fd in case["frames"]], "same-index": same,
